@@ -234,6 +234,16 @@ func init() {
 					}
 				}
 				atoms = uniqSorted(atoms)
+				usable := true
+				for _, o := range l.Ops {
+					if d, gerr := f.load(o.Q); d == nil {
+						em.GenError(gerr + " :: " + o.Q)
+						usable = false
+					}
+				}
+				if !usable {
+					continue // an operation of this layout does not exist in this world
+				}
 				body, ct := l.body()
 				rp := map[string]interface{}{"world": wd.Name(), "cfg": cfg.String(), "layout": l.Desc, "content_type": ct, "body": body}
 				if !em.Begin(i, atoms, rp) {
@@ -363,6 +373,25 @@ func init() {
 								if prev, seen := bySvc[c.sr.Svc]; !seen || (prev != "" && verdict == "") {
 									bySvc[c.sr.Svc] = verdict
 								}
+							}
+							if len(l.Ops) > 1 {
+								// in a client batch sub-requests cannot be attributed to one operation
+								// unambiguously (same root fields, same variable names): the file must
+								// arrive intact in at least one of the candidates
+								any, worst := false, ""
+								for _, v := range bySvc {
+									if v == "" {
+										any = true
+									} else {
+										worst = v
+									}
+								}
+								if any {
+									reached = true
+								} else if worst != "" {
+									set[worst] = true
+								}
+								continue
 							}
 							for _, v := range bySvc {
 								if v == "" {
